@@ -156,6 +156,18 @@ func (b *build) runRealCase(doc []docAgent, c realCase, n int) (sig, detail stri
 	case c.Path == "rel":
 		args = append(args, "--path", "custom/dir")
 		base = filepath.Join(cwd, "custom/dir")
+	case c.Path == "odd":
+		// an unusual but valid relative path: dot segments, a space, a component that is just "~"
+		args = append(args, "--path", "./a b/../~/x")
+		base = filepath.Join(cwd, "~", "x")
+	case c.Path == "tilde":
+		// a relative path whose FIRST element is "~": it names a directory called "~" under the
+		// current directory. The tail re-enters this case's private directory from one level above a
+		// home directory such as /root, so that a build that expands the tilde writes inside the
+		// scratch area too (at <root>/tildeesc instead of <cwd>/<root>/tildeesc).
+		esc := "~/../" + strings.TrimPrefix(root, "/") + "/tildeesc"
+		args = append(args, "--path", esc)
+		base = filepath.Join(cwd, esc)
 	case c.Path == "abs":
 		args = append(args, "--path", abs)
 		base = abs
@@ -281,7 +293,7 @@ func (b *build) realCLI(out *drv.Outcome) map[string]any {
 	}
 	var cases []realCase
 	for _, a := range doc {
-		for _, f := range []realCase{{}, {User: true}, {Path: "rel"}, {Path: "abs"}, {Path: "rel", User: true}} {
+		for _, f := range []realCase{{}, {User: true}, {Path: "rel"}, {Path: "abs"}, {Path: "rel", User: true}, {Path: "odd"}, {Path: "tilde"}, {Path: "tilde", User: true}} {
 			for _, pre := range []string{"fresh", "older"} {
 				c := f
 				c.Agent, c.Pre = a.CLI, pre
@@ -300,7 +312,7 @@ func (b *build) realCLI(out *drv.Outcome) map[string]any {
 		}
 	}
 	info["runs"] = len(cases)
-	info["matrix"] = fmt.Sprintf("%d agents x 5 flag combinations x 2 prior states, real binary, real filesystem, private HOME and cwd", len(doc))
+	info["matrix"] = fmt.Sprintf("%d agents x 8 flag combinations (default, --user, --path rel/abs, --path+--user, odd relative path, relative path starting with ~ with and without --user) x 2 prior states, real binary, real filesystem, private HOME and cwd", len(doc))
 	return info
 }
 
